@@ -76,9 +76,27 @@ def execute(pid, plan, keep_events=False):
   res.setdefault("nontrivial", False)
   res.setdefault("digest", "")
   res["wall"] = time.time() - t0
+  res["digests"] = _state_digests(res.get("events") or [])
   if not keep_events:
     res.pop("events", None)
   return res
+
+
+def _state_digests(events):
+  """Distinct SUT output / fitted-state digests reached by a run (a measure of
+  the states explored, reported in the evidence)."""
+  out = set()
+  for e in events:
+    if not isinstance(e, dict):
+      continue
+    for k in ("M", "out", "stream", "thr"):
+      v = e.get(k)
+      if isinstance(v, str) and v:
+        out.add(v[:12])
+    st = e.get("state")
+    if isinstance(st, dict) and st.get("components_"):
+      out.add(st["components_"][:12])
+  return sorted(out)[:40]
 
 
 def _task(args):
@@ -278,7 +296,10 @@ def aggregate(results):
   herr = []
   viol = []
   nontriv_shapes = set()
+  states = set()
   for r in results:
+    if len(states) < 200000:
+      states.update(r.get("digests") or [])
     for k, v in r.get("cov", {}).items():
       cov[k] += v
     if r.get("harness_error"):
@@ -292,6 +313,7 @@ def aggregate(results):
         nontriv_shapes.add(r["shape"])
     if r.get("violation"):
       viol.append(r)
+  cov["__distinct_state_digests"] = len(states)
   return cov, shapes, nontriv_shapes, inconc, herr, viol
 
 
